@@ -46,6 +46,11 @@ var scenarios = map[string]scenario{
 	"flow-renew2-migrate": {run: flowRenew2Migrate},
 	"flow-debt-release":   {run: flowDebtRelease},
 	"flow-short-renewal":  {run: flowShortRenewal},
+	"flow-unnamed-rollback": {run: flowUnnamedRollback},
+	"flow-renew-many-poor": {run: flowRenewManyPoor},
+	"flow-capacity-edge":  {run: flowCapacityEdge},
+	"flow-stake-before-pledge": {run: flowStakeBeforePledge, genesis: func(g *GenesisSpec) { g.NodeParams.VstorageThreshold = 5000000 }},
+	"flow-slashed-validator": {run: flowSlashedValidator, genesis: func(g *GenesisSpec) { g.NodeParams.VstorageThreshold = 5000000 }},
 	"flow-renewed-versions": {run: flowRenewedVersions},
 	"flow-late-ready":     {run: flowLateReady},
 	"flow-stale-order":    {run: flowStaleOrder},
@@ -58,7 +63,7 @@ var scenarios = map[string]scenario{
 	}},
 	"flow-sponsor-rollback": {run: flowSponsorRollback},
 	"flow-rollover-coincide": {run: flowRolloverCoincide, genesis: func(g *GenesisSpec) { g.NodeParams.OfflineTriggerHeight = 100000 }},
-	"flow-fault-not-held": {run: flowFaultNotHeld, genesis: func(g *GenesisSpec) { g.NodeParams.FishmenInfo = g.Accounts[10].Bech() }},
+	"flow-fault-not-held": {run: flowFaultNotHeld, genesis: func(g *GenesisSpec) { g.NodeParams.FishmenInfo = g.Accounts[10].Bech() + "," + g.Accounts[12].Bech() }},
 	"flow-forged-owner":   {run: flowForgedOwner},
 	"flow-timeout-giveup": {run: flowTimeoutGiveup},
 	// twin-only scripts (the recorded stream is replayed on a second replica that restarts at every block; the
@@ -479,11 +484,18 @@ func flowRenew2Migrate(r *Recorder, accts []*Account) {
 	for _, sh := range m.w.ctxShards() {
 		if sp := m.w.acctByAddr(sh.Sp); sp != nil && sh.Status == 2 {
 			r.Migrate(sp, sp.Bech(), []string{dataA})
+			r.Migrate(sp, sp.Bech(), []string{dataA}) // asked again before the target completed: nothing more may be placed
 			break
 		}
 	}
 	r.EndBlock()
 	r.BeginBlock()
+	for _, sh := range m.w.ctxShards() {
+		if sp := m.w.acctByAddr(sh.From); sp != nil && sh.Status == 4 {
+			r.Migrate(sp, sp.Bech(), []string{dataA}) // and again in a later block
+			break
+		}
+	}
 	m.completeAll()
 	r.EndBlock()
 	r.Blocks(3)
@@ -496,7 +508,8 @@ func flowFaultNotHeld(r *Recorder, accts []*Account) {
 	m := newMiniWorld(r, accts, 3)
 	o := m.owners[0]
 	fishman := accts[9]
-	loud := accts[10] // a node that is not a designated fishman but declares the fishing bit in its own status
+	loud := accts[10]  // a node that is not a designated fishman but declares the fishing bit in its own status
+	ghost := accts[11] // listed as a fishman in the parameters, but never registered a node
 	r.BeginBlock()
 	r.NodeCreate(fishman)
 	r.NodeCreate(loud)
@@ -532,6 +545,8 @@ func flowFaultNotHeld(r *Recorder, accts []*Account) {
 		if sh.Status == 2 { // a valid report by the undesignated node: refused
 			f := &saotypes.Fault{DataId: dataA, OrderId: 1, ShardId: sh.Id, CommitId: "lost", Provider: sh.Sp, Reporter: loud.Bech()}
 			r.ReportFaults(loud, sh.Sp, []*saotypes.Fault{f})
+			g := &saotypes.Fault{DataId: dataA, OrderId: 1, ShardId: sh.Id, CommitId: "gone", Provider: sh.Sp, Reporter: ghost.Bech()}
+			r.ReportFaults(ghost, sh.Sp, []*saotypes.Fault{g})
 		}
 	}
 	r.EndBlock()
@@ -581,6 +596,16 @@ func flowForgedOwner(r *Recorder, accts []*Account) {
 	fp.PaymentDid = o.did
 	r.Store(forger.acct, &saotypes.MsgStore{Creator: forger.acct.Bech(), Proposal: fp, JwsSignature: SignJWS(&fp, forger.key, forger.kid), Provider: o.acct.Bech()})
 	r.Store(forger.acct, &saotypes.MsgStore{Creator: forger.acct.Bech(), Proposal: fp, JwsSignature: SignJWS(&fp, forger.key, forger.kid), Provider: m.gw.Bech()})
+	// a model created with a read-only grantee: the grantee's own, validly signed update and termination are refused
+	dataR := "eeeeeeee-data-4000-8000-00000000000e"
+	reader := m.owners[1]
+	rpp := m.w.proposal(o, m.gw, dataR, dataR, 1, 1000000, 1, 3600, 100)
+	rpp.ReadonlyDids = []string{reader.did}
+	r.Store(m.gw, &saotypes.MsgStore{Creator: m.gw.Bech(), Proposal: rpp, JwsSignature: SignJWS(&rpp, o.key, o.kid), Provider: m.gw.Bech()})
+	m.completeAll()
+	m.store(reader, dataR, dataR+"|eeeeeeee-comm-4000-8000-00000000000e", 1, 1000000, 1, 3600, 100)
+	tpr := saotypes.TerminateProposal{Owner: reader.did, DataId: dataR}
+	r.Terminate(m.gw, &saotypes.MsgTerminate{Creator: m.gw.Bech(), Proposal: tpr, JwsSignature: SignJWS(&tpr, reader.key, reader.kid), Provider: m.gw.Bech()})
 	tp2 := saotypes.TerminateProposal{Owner: forger.did, DataId: dataA}
 	r.Terminate(m.gw, &saotypes.MsgTerminate{Creator: m.gw.Bech(), Proposal: tp2, JwsSignature: SignJWS(&tp2, forger.key, forger.kid), Provider: m.gw.Bech()})
 	r.EndBlock()
@@ -1072,4 +1097,183 @@ func flowLateReady(r *Recorder, accts []*Account) {
 	}
 	r.EndBlock()
 	r.Blocks(125)
+}
+
+// A model without an alias whose first order never gets stored: cancelled by the gateway, stored again under the same
+// data id, given up by the chain after its timeouts, and stored a third time. Each rollback must take the alias entry
+// with it, or the data id can never be used again.
+func flowUnnamedRollback(r *Recorder, accts []*Account) {
+	m := newMiniWorld(r, accts, 1)
+	o := m.owners[0]
+	unnamed := func(timeout int32) TxResult {
+		p := m.w.proposal(o, m.gw, dataA, dataA, 1, 1000000, 1, 3600, timeout)
+		p.Alias = ""
+		return r.Store(m.gw, &saotypes.MsgStore{Creator: m.gw.Bech(), Proposal: p, JwsSignature: SignJWS(&p, o.key, o.kid), Provider: m.gw.Bech()})
+	}
+	lastOrder := func() uint64 {
+		var id uint64
+		for _, x := range m.w.ctxOrders() {
+			if x.Id > id {
+				id = x.Id
+			}
+		}
+		return id
+	}
+	r.BeginBlock()
+	unnamed(100)
+	r.EndBlock()
+	r.BeginBlock()
+	r.Cancel(m.gw, m.gw.Bech(), lastOrder())
+	r.EndBlock()
+	r.BeginBlock()
+	unnamed(5)
+	r.EndBlock()
+	r.Blocks(60)
+	r.BeginBlock()
+	unnamed(100)
+	m.completeAll()
+	r.EndBlock()
+	r.Blocks(2)
+}
+
+// One renewal request naming two models that share a provider who can pay the collateral top-up of one but not of
+// both: the second top-up is taken from what is left, the shortfall is recorded as debt, and both models can be
+// terminated afterwards.
+func flowRenewManyPoor(r *Recorder, accts []*Account) {
+	m := newMiniWorld(r, accts, 1)
+	o := m.owners[0]
+	p := m.providers[0]
+	dataB := "bbbbbbbb-data-4000-8000-00000000000b"
+	r.BeginBlock()
+	m.store(o, dataA, dataA, 1, 1000000, 1, 3600, 100)
+	m.store(o, dataB, dataB, 1, 1000000, 1, 3600, 100)
+	m.completeAll()
+	bal := r.c.App.BankKeeper.GetBalance(r.c.deliverCtx(), p.Addr, Denom).Amount.Int64()
+	r.Send(p, accts[8], bal-500)
+	r.EndBlock()
+	r.BeginBlock()
+	rp := saotypes.RenewProposal{Owner: o.did, Duration: 7200, Timeout: 10, Data: []string{dataA, dataB}}
+	r.Renew(m.gw, &saotypes.MsgRenew{Creator: m.gw.Bech(), Proposal: rp, JwsSignature: SignJWS(&rp, o.key, o.kid), Provider: m.gw.Bech()})
+	r.EndBlock()
+	r.Blocks(2)
+	r.BeginBlock()
+	for _, d := range []string{dataA, dataB} {
+		tp := saotypes.TerminateProposal{Owner: o.did, DataId: d}
+		r.Terminate(m.gw, &saotypes.MsgTerminate{Creator: m.gw.Bech(), Proposal: tp, JwsSignature: SignJWS(&tp, o.key, o.kid), Provider: m.gw.Bech()})
+	}
+	r.EndBlock()
+	r.Blocks(2)
+}
+
+// The edges of a provider's free capacity: a stored shard of a size that is not a whole number of pledge units, a
+// withdrawal just above what is free (refused), one that fits (accepted), a second order that no longer fits while
+// other providers have plenty, and a top-up of capacity after rewards have accrued followed by claims.
+func flowCapacityEdge(r *Recorder, accts []*Account) {
+	w := &saoWorld{rng: rand.New(rand.NewSource(7)), r: r, c: r.c, grants: map[string]*owner{}}
+	gw, p, q := accts[0], accts[1], accts[2]
+	r.BeginBlock()
+	r.NodeCreate(gw)
+	r.NodeReset(gw, "", 3, "", nil)
+	r.NodeCreate(p)
+	r.NodeReset(p, "", 13, "", nil)
+	r.AddVstorage(p, 3000000)
+	r.NodeCreate(q) // capacity only: does not accept orders
+	r.NodeReset(q, "", 5, "", nil)
+	r.AddVstorage(q, 50000000)
+	o := w.mkKeyOwner(accts[4], "edge")
+	w.gateways = []*Account{gw}
+	r.EndBlock()
+	store := func(data string, size uint64) {
+		pr := w.proposal(o, gw, data, data, 1, size, 1, 3600, 100)
+		r.Store(gw, &saotypes.MsgStore{Creator: gw.Bech(), Proposal: pr, JwsSignature: SignJWS(&pr, o.key, o.kid), Provider: gw.Bech()})
+	}
+	completeAll := func() {
+		for _, sh := range w.ctxShards() {
+			if sh.Status == 0 {
+				if sp := w.acctByAddr(sh.Sp); sp != nil {
+					r.Complete(sp, sp.Bech(), sh.OrderId, goodCid2, sh.Size_)
+				}
+			}
+		}
+	}
+	r.BeginBlock()
+	store(dataA, 1500000)
+	completeAll()
+	r.EndBlock()
+	r.BeginBlock()
+	r.RemoveVstorage(p, 2000000) // 1 500 000 free: refused
+	r.RemoveVstorage(p, 1999999)
+	r.RemoveVstorage(p, 1000000) // fits
+	r.EndBlock()
+	r.BeginBlock()
+	store("bbbbbbbb-data-4000-8000-00000000000b", 1000000) // 500 000 free: the assigned shard cannot be completed
+	completeAll()
+	r.EndBlock()
+	r.Blocks(20)
+	r.BeginBlock()
+	r.AddVstorage(p, 2500000) // a top-up with reward pending
+	r.AddVstorage(q, 1000000)
+	completeAll()
+	r.EndBlock()
+	r.Blocks(10)
+	r.BeginBlock()
+	r.ClaimReward(p)
+	r.ClaimReward(q)
+	r.RemoveVstorage(q, 2500000)
+	r.EndBlock()
+	r.Blocks(3)
+}
+
+// Staking before anything is pledged: delegations are created and changed while the storage pool is empty; later a
+// node pledges, declares the full status and delegates just below the required fraction. Nothing of the earlier
+// delegations may linger in the process.
+func flowStakeBeforePledge(r *Recorder, accts []*Account) {
+	c := r.c
+	val := c.ValAddrs[0]
+	a, e := accts[0], accts[1]
+	r.BeginBlock()
+	r.Delegate(a, val, 400000)
+	r.EndBlockStaking()
+	r.BeginBlock()
+	r.Delegate(a, val, 100000) // an existing delegation grows
+	r.EndBlockStaking()
+	r.BeginBlock()
+	r.Undelegate(a, val, 50000)
+	r.EndBlockStaking()
+	r.BeginBlock()
+	r.NodeCreate(e)
+	r.AddVstorage(e, 6000000)
+	r.NodeReset(e, "", 15, val.String(), nil)
+	r.Delegate(e, val, 100000) // 100000 of 1550000 shares: 6.5 %
+	r.EndBlockStaking()
+	r.BeginBlock()
+	r.Delegate(accts[2], val, 1000)
+	r.EndBlockStaking()
+}
+
+// A validator that has been slashed holds fewer tokens than it has issued shares. The super role is decided on
+// shares: a node between 10 % of the tokens and 10 % of the shares is not promoted, and loses the role when diluted.
+func flowSlashedValidator(r *Recorder, accts []*Account) {
+	c := r.c
+	val := c.ValAddrs[0]
+	n, third := accts[0], accts[1]
+	r.BeginBlock()
+	r.NodeCreate(n)
+	r.AddVstorage(n, 6000000)
+	r.Delegate(n, val, 115000) // 115000 of 1115000 shares: 10.3 %
+	r.NodeReset(n, "", 15, val.String(), nil)
+	r.EndBlockStaking()
+	r.BeginBlock()
+	r.SlashValidator(val, sdk.NewDecWithPrec(5, 2))
+	r.EndBlockStaking()
+	r.BeginBlock()
+	r.Delegate(third, val, 60000) // dilutes the node to 9.8 % of the shares (10.3 % of the tokens)
+	r.EndBlockStaking()
+	r.BeginBlock()
+	r.NodeReset(n, "", 15, val.String(), nil)
+	r.AddVstorage(n, 1000000)
+	r.EndBlockStaking()
+	r.BeginBlock()
+	r.Undelegate(third, val, 1000)
+	r.EndBlockStaking()
 }
